@@ -41,7 +41,7 @@ pub fn convert_grammar_functions_to_semantic_functions(
     module: &Module,
     size: Option<usize>,
     functions: &[grammar::Function],
-) -> anyhow::Result<Vec<Function>> {
+) -> anyhow::Result<Option<Vec<Function>>> {
     // Insert function, with padding if necessary
     let mut output = vec![];
     for function in functions {
@@ -61,8 +61,11 @@ pub fn convert_grammar_functions_to_semantic_functions(
         if let Some(index) = index {
             make_padding_functions(&mut output, index);
         }
-        let function = function::build(type_registry, &module.scope(), true, function)
-            .with_context(|| format!("while building vftable function `{}`", function.name))?;
+        let Some(function) = function::build(type_registry, &module.scope(), true, function)
+            .with_context(|| format!("while building vftable function `{}`", function.name))?
+        else {
+            return Ok(None);
+        };
         output.push(function);
     }
 
@@ -89,7 +92,7 @@ pub fn convert_grammar_functions_to_semantic_functions(
         }
     }
 
-    Ok(output)
+    Ok(Some(output))
 }
 
 pub fn build(
